@@ -253,6 +253,7 @@ class GcodeParser(CommonMixin):  # pylint: disable=too-many-instance-attributes
         self._updateParameters(match.group(9))
 
         self._checksum = match.group(10)
+        self._rawChecksum = None
         if (self._checksum is not None):
             self._rawChecksum = "*" + self._checksum
             self._checksum = int(self._checksum)
